@@ -14,12 +14,17 @@ META = {
         "(3) write discipline: a write(2) on the credential data either sits in a loop whose buffer and remaining count are both "
         "advanced by the returned count, or its result is compared with the full count and a mismatch fails the update; a "
         "negative result leaves with failure; "
-        "(4) effective: the in-memory password member is replaced by crypt(new, salt) before persisting, and authentication "
+        "(4) effective: the in-memory password member is replaced by crypt(new, salt) before persisting (either idiom: "
+        "cJSON_SetValuestring on the member, or cJSON_ReplaceItemInObject with a new string item), a success answer is given only on "
+        "paths on which every fallible part of that step was tested and found successful, and authentication "
         "compares crypt(given, stored) with the same member; "
         "(5) hygiene: clear_password(passwd) on every exit of both entry points; password taint (shared with C08.4)."),
     "not_decided": "crypt() behaviour, salt quality, the file system's own crash semantics (rename atomicity is POSIX's promise)",
     "assumptions": ["POSIX: rename(2) atomically replaces the target; fsync(2) makes the temporary file durable"],
 }
+
+
+INSTALLERS = ("cJSON_ReplaceItemInObject", "cJSON_SetValuestring")
 
 
 def _polarity_eq(atom, pol):
@@ -28,19 +33,25 @@ def _polarity_eq(atom, pol):
 
 def clause1_auth(ctx, P):
     cp = P.fn("auth_file.c:change_password")
-    sites = cp.calls(("cJSON_ReplaceItemInObject", "write_user_data"))
-    repl = [s for s in sites if P.srcname_of(s.callee) == "cJSON_ReplaceItemInObject"]
+    sites = cp.calls(INSTALLERS + ("write_user_data",))
+    repl = [s for s in sites if P.srcname_of(s.callee) in INSTALLERS]
     if not repl:
         raise AnalysisBroken("change_password: password replacement site not found")
-    persist = [s for s in sites if P.srcname_of(s.callee) != "cJSON_ReplaceItemInObject"]
+    persist = [s for s in sites if P.srcname_of(s.callee) not in INSTALLERS]
     if not persist:
         # any callee in this unit that reaches write/rename
         raise AnalysisBroken("change_password: persist site (write_user_data) not found")
     user_t = None
     for s in repl:
-        user_t = P.term(cp, s.a[0])
-        ctx.ob("C20.1 R-PAIR", cp, "replace:member", Q.arg_literal(P, s, 1) == "password",
-               "the member replaced is not \"password\"")
+        if P.srcname_of(s.callee) == "cJSON_SetValuestring":
+            item = P.term(cp, s.a[0])
+            isget = Q.is_call_to(item, "cJSON_GetObjectItem")
+            user_t = item[2][0] if isget else None
+            member_ok = isget and item[2][1] == ("str", "password")
+        else:
+            user_t = P.term(cp, s.a[0])
+            member_ok = Q.arg_literal(P, s, 1) == "password"
+        ctx.ob("C20.1 R-PAIR", cp, "replace:member", member_ok, "the member replaced is not \"password\" of the target user")
 
     def authd(atom, pol):
         if atom[0] != "cmp" or atom[3] != ("null",):
@@ -269,6 +280,13 @@ def clause3_write(ctx, P, cg):
     ctx.floor("C20.3 R-LOOP", 2)
 
 
+def _is_new_hash(P, t):
+    """crypt(<new password parameter>, salt), possibly wrapped into cJSON_CreateString"""
+    if Q.is_call_to(t, "cJSON_CreateString"):
+        t = t[2][0]
+    return Q.is_call_to(t, "crypt") and t[2][0][0] == "param" and t[2][0][1] == 3
+
+
 def clause4_effective(ctx, P, cg):
     cp = P.fn("auth_file.c:change_password")
     views = Q.path_views(ctx, P, cp)
@@ -281,18 +299,48 @@ def clause4_effective(ctx, P, cg):
         if not pos_w:
             continue
         n += 1
-        pos_r = [k for k, i in order if P.srcname_of(i.callee) == "cJSON_ReplaceItemInObject"]
+        pos_r = [k for k, i in order if P.srcname_of(i.callee) in INSTALLERS]
         if not pos_r or min(pos_r) > pos_w[0]:
             bad = v
     ctx.ob("C20.4 R-ORDER", cp, "replace-before-persist", bad is None and n > 0,
            "the database is persisted on a path where the in-memory password was not replaced first" if bad else
            "replacement precedes persist on %d path(s)" % n)
-    for s in cp.calls("cJSON_ReplaceItemInObject"):
-        t = P.term(cp, s.a[2])
-        good = Q.is_call_to(t, "cJSON_CreateString") and Q.is_call_to(t[2][0], "crypt") and \
-            t[2][0][2][0][0] == "param" and t[2][0][2][0][1] == 3
+    sites = cp.calls(INSTALLERS)
+    if not sites:
+        raise AnalysisBroken("change_password: no step that installs the new hash (%s)" % ", ".join(INSTALLERS))
+    for s in sites:
+        cn = P.srcname_of(s.callee)
+        if cn == "cJSON_ReplaceItemInObject":
+            t = P.term(cp, s.a[2])
+            good = _is_new_hash(P, t)
+        else:
+            t = P.term(cp, s.a[1])
+            item = P.term(cp, s.a[0])
+            good = _is_new_hash(P, t) and Q.is_call_to(item, "cJSON_GetObjectItem") and item[2][1] == ("str", "password")
         ctx.ob("C20.4 R-PAIR", cp, "replace:value", good,
-               "the stored password is not cJSON_CreateString(crypt(<new password parameter>, salt)): %s" % fmt_term(t))
+               "the stored password is not crypt(<new password parameter>, salt) installed in the user's \"password\" member: %s" % fmt_term(t))
+    # a success answer implies that the installing step succeeded: every fallible part of it is tested on the path
+    swallowed = None
+    nsucc = 0
+    for v in views:
+        if not any(True for _ in v.calls("create_success_response_from_request")):
+            continue
+        nsucc += 1
+        for _, i in v.calls(INSTALLERS):
+            cn = P.srcname_of(i.callee)
+            need = []
+            if cn == "cJSON_ReplaceItemInObject":
+                need.append(lambda a, p: a[0] == "truth" and Q.is_call_to(a[1], "cJSON_ReplaceItemInObject") and p or
+                            (a[0] == "cmp" and Q.is_call_to(a[2], "cJSON_ReplaceItemInObject") and a[3] == ("const", 0) and not _polarity_eq(a, p)))
+                need.append(lambda a, p: a[0] == "cmp" and Q.is_call_to(a[2], "cJSON_CreateString") and a[3] == ("null",) and not _polarity_eq(a, p))
+            else:
+                need.append(lambda a, p: a[0] == "cmp" and Q.is_call_to(a[2], "cJSON_SetValuestring") and a[3] == ("null",) and not _polarity_eq(a, p))
+            if not all(v.has_atom(nd) for nd in need):
+                swallowed = v
+    ctx.ob("C20.4 R-RET", cp, "install-failure-fails-the-update", swallowed is None and nsucc > 0,
+           "success is answered on a path on which the step that installs the new hash may have failed unnoticed (allocation failure in "
+           "cJSON_CreateString / cJSON_ReplaceItemInObject / cJSON_SetValuestring): the caller is told the password changed, the old one "
+           "stays valid or the member is lost", witness=swallowed.witness() if swallowed else None)
     co = P.fn("auth_file.c:credentials_ok")
     cmpok = False
     for c in co.calls("strcmp"):
